@@ -31,7 +31,8 @@ Inductive lop :=
 | OCreateNode (id : Z) | OCreateCl (id : Z) | OCreateRef (id : Z) | OCreateGrp (id : Z) (e : Z)
 | OCall (h : nat) | OChild (h : nat) | OChildRef (h : nat) | OIntoChild (h : nat) | OFin (h : nat)
 | OClone (h : nat) | ODrop (h : nat) | OCast (h : nat) | OUpcast (h : nat)
-| OLastRefFin (id : Z) | OLastRefIntoChild (id : Z).
+| OLastRefFin (id : Z) | OLastRefIntoChild (id : Z)
+| OCreateZst (id : Z).               (* a boxed single-trait object around a ZERO-SIZED instance: no allocation, but a destructor *)
 
 Definition lget (s : lst) (h : nat) : lh := nth h (lpool s) LDead.
 Fixpoint lset {A} (l : list A) (i : nat) (x : A) : list A :=
@@ -84,6 +85,7 @@ Definition lstep (s : lst) (o : lop) : lst * lout :=
                  | _ => lrej s 12 end
   | OLastRefFin id => (s, ([13; 1; -1], [id]))
   | OLastRefIntoChild id => (s, ([14; 1; -1], [id; id + 200]))
+  | OCreateZst id => lnew s (LChild id) 15 1 1 []
   end.
 
 Definition linit : lst := mkl [] 0 0 0.
@@ -106,7 +108,7 @@ Definition dec_lop (row : list Z) : option lop :=
   | [1; h] => Some (OCall (zn h)) | [2; h] => Some (OChild (zn h)) | [3; h] => Some (OChildRef (zn h))
   | [4; h] => Some (OIntoChild (zn h)) | [5; h] => Some (OFin (zn h)) | [6; h] => Some (OClone (zn h))
   | [7; h] => Some (ODrop (zn h)) | [11; h] => Some (OCast (zn h)) | [12; h] => Some (OUpcast (zn h))
-  | [13; id] => Some (OLastRefFin id) | [14; id] => Some (OLastRefIntoChild id)
+  | [13; id] => Some (OLastRefFin id) | [14; id] => Some (OLastRefIntoChild id) | [15; id] => Some (OCreateZst id)
   | _ => None
   end.
 Fixpoint dec_lops (rows : list (list Z)) : option (list lop) :=
